@@ -3,7 +3,7 @@ import ast
 
 from ..core import AnalysisError, dotted, call_name, src, walk_local, const_value
 from ..flow import linear, Lin, leaves
-from ..rules import flow_of, calls_in, bind_args, canon as _canon, facts_at, cmp_norm, alts_deep
+from ..rules import anchored_fn, flow_of, calls_in, bind_args, canon as _canon, facts_at, cmp_norm, alts_deep
 from ..units import check_units
 from ..tables import UNITS
 from .c07 import canon, is_feasible_call
@@ -129,7 +129,7 @@ def rule_sorts(ck):
 def rule_queue_order(ck):
     repo = ck.repo
     for q, kind in (("SortedSchedulingAlgo.sorting_algorithm", "greedy"), ("RoundRobin.round_robin", "rr")):
-        f = repo.fn(q)
+        f = anchored_fn(repo, q, ("schedule", "queue"), loops_over=("queue",) if kind == "greedy" else None)
         fl = flow_of(f)
         cfg = fl.cfg
         sess = f.params[1]
@@ -142,8 +142,16 @@ def rule_queue_order(ck):
         loops = [n for n in cfg.nodes if n.kind == "for" and allocates(n)]
         ck.floor("C08.R2", len(loops), 1 if kind == "rr" else 2, f"session loops in {q}")
         for lp in loops:
-            it = _canon(fl.expand(lp.stmt.iter, lp))
+            itx = fl.expand(lp.stmt.iter, lp)
+            it = _canon(itx)
             ok = it in (want, f"deque({want})")
+            if not ok:
+                # a list derived element by element from the sorted queue (same order, nothing dropped) is the queue with extra data
+                from ..flow import _strip_seq
+                e_ = _strip_seq(itx)
+                if isinstance(e_, (ast.ListComp, ast.GeneratorExp)) and len(e_.generators) == 1 and not e_.generators[0].ifs and \
+                        _canon(_strip_seq(e_.generators[0].iter)) in (want, f"deque({want})"):
+                    ok = True
             ck.require(ok, "C08.R2", f, lp.stmt.iter, ok="iterates the sorted queue", bad=f"the loop iterates `{it[:80]}`, not the queue returned by the sort function: priority order is ignored",
                        sink=f"{kind}:iter")
             body = cfg.loop_region(lp)
@@ -172,7 +180,7 @@ def rule_search_direction(ck):
     from .discrete import rule_discrete_search
     rule_discrete_search(ck, rid_safe="C08.R3", rid_max="C08.R3", which=("safe", "max"))
     # the candidates passed by the caller are ascending: allowable levels are stored sorted (C13-R5) and filtered in order
-    sa = repo.fn("SortedSchedulingAlgo.sorting_algorithm")
+    sa = anchored_fn(repo, "SortedSchedulingAlgo.sorting_algorithm", ("schedule", "queue"), loops_over=("queue",))
     sl = flow_of(sa)
     for n, c in calls_in(sl, "discrete_max_feasible_rate"):
         b = bind_args(c, df, method=False)
@@ -180,7 +188,7 @@ def rule_search_direction(ck):
         ok = isinstance(ex, ast.ListComp) and len(ex.generators) == 1 and dotted(ex.elt) == dotted(ex.generators[0].target)
         ck.require(ok, "C08.R3", sa, c, ok="candidates keep the EVSE's ascending order (filter only)", bad="the candidate list is re-ordered or transformed before the search", sink="discrete:order-kept")
     # continuous: ub first, then bisection over [lb, ub]
-    mf = repo.fn("SortedSchedulingAlgo.max_feasible_rate")
+    mf = anchored_fn(repo, "SortedSchedulingAlgo.max_feasible_rate", ("new_schedule",), nested=True)
     ml = flow_of(mf)
     rets = [n for n in ml.cfg.nodes if n.kind == "return"]
     ubr = [n for n in rets if canon(n.expr) == "ub"]
@@ -201,7 +209,7 @@ def rule_search_direction(ck):
                 ok = True
     ck.require(ok, "C08.R3", bi, stops[0].stmt if stops else "return _lb", ok="stops when the interval is no wider than eps", bad="the bisection does not stop on `_ub - _lb <= eps`",
                sink="continuous:stop")
-    for n, c in calls_in(flow_of(repo.fn("SortedSchedulingAlgo.sorting_algorithm")), "max_feasible_rate"):
+    for n, c in calls_in(flow_of(anchored_fn(repo, "SortedSchedulingAlgo.sorting_algorithm", ("schedule", "queue"), loops_over=("queue",))), "max_feasible_rate"):
         eps = next((k.value for k in c.keywords if k.arg == "eps"), None)
         try:
             v = const_value(eps) if eps is not None else const_value(mf.defaults()["eps"])
@@ -212,7 +220,7 @@ def rule_search_direction(ck):
 
 def rule_round_robin(ck):
     repo = ck.repo
-    f = repo.fn("RoundRobin.round_robin")
+    f = anchored_fn(repo, "RoundRobin.round_robin", ("schedule", "queue", "rate_idx", "allowable_pilots"))
     fl = flow_of(f)
     cfg = fl.cfg
     wh = [n for n in cfg.nodes if n.kind == "test" and isinstance(n.stmt, ast.While)]
@@ -283,22 +291,24 @@ def rule_uncontrolled(ck):
     fl = flow_of(f)
     cfg = fl.cfg
     sess = f.params[1]
-    sts = [n for n in cfg.nodes if n.kind == "stmt" and isinstance(n.stmt, ast.Assign) and isinstance(n.stmt.targets[0], ast.Subscript)]
-    ck.require(len(sts) == 1, "C08.R5", f, "schedule[station] = [max pilot]", bad=f"{len(sts)} stores into the baseline schedule", sink="uncontrolled:stores")
-    for n in sts:
-        loops = [t for t, lab in cfg.edges_dominating(n) if t.kind == "for" and lab is True]
-        conds = [t for t, lab in cfg.edges_dominating(n) if t.kind == "test"]
-        ok = len(loops) == 1 and canon(loops[0].stmt.iter) == sess and not conds
-        ck.require(ok, "C08.R5", f, n.stmt, ok="one entry per active session, unconditionally", bad="the baseline does not give every active session an entry", sink="uncontrolled:all")
-        key = canon(fl.expand(n.stmt.targets[0].slice, n))
-        v = fl.expand(n.stmt.value, n)
-        ok = key == "session.station_id" and isinstance(v, ast.List) and len(v.elts) == 1 and canon(v.elts[0]) == "self.interface.max_pilot_signal(session.station_id)"
-        ck.require(ok, "C08.R5", f, n.stmt, ok="station -> [its maximum pilot]", bad=f"the baseline stores `{canon(v)[:60]}` under `{key}`; it must be [max_pilot_signal(station)] under the session's station", sink="uncontrolled:value")
-    inits = [n for n in cfg.nodes if n.kind == "stmt" and isinstance(n.stmt, ast.Assign) and any(dotted(t) == "schedule" for t in n.stmt.targets)]
-    ck.require(len(inits) == 1 and isinstance(inits[0].stmt.value, ast.Dict) and not inits[0].stmt.value.keys, "C08.R5", f, inits[0].stmt if inits else "schedule = {}",
-               ok="nothing for other stations", bad="the baseline schedule does not start empty", sink="uncontrolled:empty")
-    for r in [n for n in cfg.nodes if n.kind == "return"]:
-        ck.require(dotted(r.expr) == "schedule", "C08.R5", f, r.stmt, ok="returns the mapping", bad="the baseline does not return its schedule mapping", sink="uncontrolled:return")
+    # the returned mapping, def-use expanded: a dict filled in a loop over the active sessions expands to the comprehension it computes
+    rets = [n for n in cfg.nodes if n.kind == "return"]
+    ck.require(len(rets) >= 1, "C08.R5", f, "return schedule", bad="the baseline returns nothing", sink="uncontrolled:return")
+    for r in rets:
+        e = fl.expand(r.expr, r) if r.expr is not None else None
+        if not isinstance(e, ast.DictComp):
+            raise AnalysisError(f"UncontrolledCharging.schedule: construction of the returned mapping not recognised: {src(r.stmt)}")
+        g = e.generators[0] if len(e.generators) == 1 else None
+        ok = g is not None and canon(g.iter) == sess and not g.ifs and isinstance(g.target, ast.Name)
+        ck.require(ok, "C08.R5", f, r.stmt, ok="one entry per active session, unconditionally, nothing for other stations",
+                   bad="the baseline does not give exactly every active session an entry", sink="uncontrolled:all")
+        if not ok:
+            continue
+        v_ = g.target.id
+        key, v = canon(e.key), e.value
+        ok = key == f"{v_}.station_id" and isinstance(v, ast.List) and len(v.elts) == 1 and canon(v.elts[0]) == f"self.interface.max_pilot_signal({v_}.station_id)"
+        ck.require(ok, "C08.R5", f, r.stmt, ok="station -> [its maximum pilot]", bad=f"the baseline stores `{canon(v)[:60]}` under `{key}`; it must be [max_pilot_signal(station)] under the session's station",
+                   sink="uncontrolled:value")
     init = repo.fn("UncontrolledCharging.__init__")
     il = flow_of(init)
     mr = [n for n in il.cfg.nodes if n.kind == "stmt" and isinstance(n.stmt, ast.Assign) and any(dotted(t) == "self.max_recompute" for t in n.stmt.targets)]
